@@ -254,7 +254,9 @@ def lists_unit():
 
     def rec(x):
         def r(inp, pos):
-            if pos < len(inp) and inp[pos] == x:
+            # indexes the input without a guard, as a user recogniser may:
+            # parglare never calls a recogniser at the end of the input
+            if inp[pos] == x:
                 return inp[pos:pos + 1]
         return r
     gspace = spaces.grammars(nts=("S", "A"), ts=("a", "b"), r=2, k=3)
